@@ -786,7 +786,7 @@ def r10_one_searcher_per_database(ctx) -> None:
         n += 1
         for r in raises:
             gs = [(norm(t), p_) for t, p_ in C.flatten_guards(C.guards(f, r))]
-            linkish = [t for t, p_ in gs if p_ and any(t == f"self.{a} is not None" for a in stores)]
+            linkish = [t for t, p_ in gs if (p_ and any(t == f"self.{a} is not None" for a in stores)) or ((not p_) and any(t == f"self.{a} is None" for a in stores))]
             # a refusal stated as a disjunction over the links is a refusal whenever one of them exists
             disj = [t for t, p_ in gs if p_ and " or " in t and all(any(f"self.{a} is not None" in part for a in stores) for part in t.split(" or "))]
             extra = [t for t, p_ in gs if t not in linkish and t not in disj]
